@@ -424,7 +424,7 @@ class Table:
     def _compare(self,lo,hi,col,arg,comparison,method):
         if isinstance(arg,dict) and len(arg) == 1:
             key,value = list(arg.items())[0]
-            if key in ['=','!=','<=','<','>','>=','match','in']:
+            if key in ['=','!=','<=','<','>','>=','match','in','!in']:
                 comparison,arg = key,value
 
         if method != "bisect" or callable(arg):
